@@ -329,6 +329,11 @@ func (w *relWorld) step(rb RelBlock) ([]relTxResult, *world.TwinResult, *Failure
 			msg, signer = v.msg, v.signer
 			res.voted, res.body, res.reason = true, &v.body, v.reason
 			res.votes = voteOf(v.msg)
+			if d := int(seqNow - rv.Sequence); d > 0 && rt.Vote.DocSeqDelta == d && rt.Vote.MsgSeqDelta == d {
+				// signed and labelled for exactly the sequence an earlier transaction of this block has moved to: such a vote
+				// can be genuine; the fixture (resolved against committed state) cannot decide its other clauses
+				v.unspecified = true
+			}
 			if v.unspecified {
 				res.expect = vUnspecified
 			} else if v.mustAccept {
